@@ -167,3 +167,126 @@ def compiled_pen(pen, weights=None):
             _pen_cache.clear()
         _pen_cache[key] = compiled(pen.build(weights))
     return _pen_cache[key]
+
+
+class Dfit:
+    """a single-task datafit configuration"""
+    KINDS = ("quadratic", "wquadratic", "logistic", "huber", "poisson", "gamma", "svc")
+
+    def __init__(self, kind, delta=None):
+        self.kind, self.delta = kind, delta
+
+    def tokens(self):
+        return f"huber {fb(self.delta)}" if self.kind == "huber" else self.kind
+
+    def key(self):
+        return (self.kind, self.delta)
+
+    def describe(self):
+        return dict(kind=self.kind, **({"delta": self.delta} if self.kind == "huber" else {}))
+
+    def cls_name(self):
+        return dict(quadratic="Quadratic", wquadratic="WeightedQuadratic", logistic="Logistic",
+                    huber="Huber", poisson="Poisson", gamma="Gamma", svc="QuadraticSVC")[self.kind]
+
+    def build(self, sw=None):
+        import skglm.datafits as D
+        k = self.kind
+        if k == "quadratic":
+            return D.Quadratic()
+        if k == "wquadratic":
+            return D.WeightedQuadratic(np.asarray(sw, dtype=float))
+        if k == "logistic":
+            return D.Logistic()
+        if k == "huber":
+            return D.Huber(self.delta)
+        if k == "poisson":
+            return D.Poisson()
+        if k == "gamma":
+            return D.Gamma()
+        return D.QuadraticSVC()
+
+    # ---- documented formulas (class docstrings), for the oracles only ----
+    def ref_value(self, sw, y, u, w):
+        k = self.kind
+        n = len(u)
+        if k == "quadratic":
+            return float(np.sum((y - u) ** 2) / (2 * n))
+        if k == "wquadratic":
+            return float(np.sum(sw * (y - u) ** 2) / (2 * np.sum(sw)))
+        if k == "logistic":
+            return float(np.sum(np.logaddexp(0, -y * u)) / n)
+        if k == "huber":
+            r = np.abs(y - u)
+            d = self.delta
+            return float(np.sum(np.where(r <= d, 0.5 * r ** 2, d * r - 0.5 * d ** 2)) / n)
+        if k == "poisson":
+            return float(np.sum(np.exp(u) - y * u) / n)
+        if k == "gamma":
+            return float(np.sum(u + y * np.exp(-u) - 1 - np.log(y)) / n)
+        return float(0.5 * np.sum(u ** 2) - np.sum(w))
+
+    def gen_y(self, rng, n, structured=True):
+        k = self.kind
+        if k == "logistic":
+            return np.array([rng.choice([-1.0, 1.0]) for _ in range(n)])
+        if k == "poisson":
+            return np.array([float(rng.choice([0, 0, 1, 2, 3, 5])) for _ in range(n)])
+        if k == "gamma":
+            return np.array([rng.choice([0.25, 0.5, 1.0, 2.0, 3.5]) for _ in range(n)])
+        if structured:
+            return np.array([rng.choice([-2.0, -1.0, -0.5, 0.0, 0.5, 1.0, 2.0, 3.0]) for _ in range(n)])
+        return np.array([rng.gauss(0, 1) * 10 ** rng.uniform(-1, 1) for _ in range(n)])
+
+
+def compiled_df(df, sw=None):
+    return compiled(df.build(sw))
+
+
+def gen_matrix(rng, n, p, mode=None):
+    """structured design: small dyadic entries, zero / duplicated / constant columns, sparsity"""
+    mode = mode or rng.choice(["dyadic", "dyadic", "sparse", "gauss", "degenerate"])
+    vals = [0.0, 0.0, 1.0, -1.0, 0.5, -0.5, 2.0, -2.0, 0.25, 1.5]
+    if mode == "gauss":
+        X = np.array([[rng.gauss(0, 1) for _ in range(p)] for _ in range(n)])
+    elif mode == "sparse":
+        X = np.array([[rng.choice(vals) if rng.random() < 0.35 else 0.0 for _ in range(p)]
+                      for _ in range(n)])
+    else:
+        X = np.array([[rng.choice(vals) for _ in range(p)] for _ in range(n)])
+    if mode == "degenerate" and p >= 2:
+        j = rng.randrange(p)
+        X[:, j] = 0.0
+        k = rng.randrange(p)
+        X[:, k] = X[:, (k + 1) % p] if rng.random() < 0.5 else 1.0
+    return np.asfortranarray(X.reshape(n, p))
+
+
+def to_csc(X, rng=None, explicit_zeros=False):
+    """scipy CSC of X; optionally with some explicitly stored zeros"""
+    from scipy import sparse
+    Xs = sparse.csc_matrix(X)
+    if explicit_zeros and rng is not None:
+        n, p = X.shape
+        data, indices, indptr = [], [], [0]
+        for j in range(p):
+            for i in range(n):
+                if X[i, j] != 0 or rng.random() < 0.15:
+                    data.append(X[i, j])
+                    indices.append(i)
+            indptr.append(len(data))
+        Xs = sparse.csc_matrix((np.array(data, dtype=float), np.array(indices, dtype=np.int32),
+                                np.array(indptr, dtype=np.int32)), shape=(n, p))
+    return Xs
+
+
+def csc_tokens(Xs):
+    """`pCSC` encoding: per column `k (row value)*k`"""
+    out = []
+    for j in range(Xs.shape[1]):
+        lo, hi = Xs.indptr[j], Xs.indptr[j + 1]
+        out.append(str(hi - lo))
+        for t in range(lo, hi):
+            out.append(str(int(Xs.indices[t])))
+            out.append(fb(Xs.data[t]))
+    return " ".join(out)
